@@ -20,7 +20,7 @@ def conf(pid):
         try: out[k]=ts.confirm(pid,v)
         except Exception as e: out[k]={'error':str(e)}
     return out
-with cf.ThreadPoolExecutor(6) as ex:
+with cf.ThreadPoolExecutor(int(os.environ.get("SEED_PAR","2"))) as ex:
     for out in ex.map(conf, list(by)):
         for k,c in out.items():
             res.setdefault(k,{})['confirm']=c
